@@ -248,13 +248,13 @@ func NewBroadcaster(opcode Opcode, payload []byte) *Broadcaster {
 // 将帧数据写入连接
 // Writes the frame data to the connection
 func (c *Broadcaster) writeFrame(socket *Conn, frame *bytes.Buffer) error {
+	socket.mu.Lock()
+	defer socket.mu.Unlock()
 	if socket.isClosed() {
 		return ErrConnClosed
 	}
-	socket.mu.Lock()
 	var err = internal.WriteN(socket.conn, frame.Bytes())
 	_, _ = socket.cpsWindow.Write(c.payload)
-	socket.mu.Unlock()
 	return err
 }
 
